@@ -336,10 +336,12 @@ const (
 
 // Net is the dial table of one execution.
 type Net struct {
-	mu       sync.Mutex
-	targets  map[string]func(client net.Addr) (net.Conn, error)
-	Dials    []string // every address dialled, in order
-	nextPort int
+	mu      sync.Mutex
+	targets map[string]func(client net.Addr) (net.Conn, error)
+	Dials   []string // every address dialled, in order
+	// WithTimeout: whether the dial in progress came through DialTimeout (the active health checker) or Dial
+	WithTimeout bool
+	nextPort    int
 }
 
 // Current is the dial table used by Dial/DialTimeout during an execution.
@@ -355,9 +357,10 @@ func (n *Net) Handle(addr string, f func(client net.Addr) (net.Conn, error)) { n
 // ErrRefused is the error of a refused dial.
 var ErrRefused = errors.New("dial: connection refused")
 
-func (n *Net) dial(network, addr string) (net.Conn, error) {
+func (n *Net) dial(network, addr string, withTimeout bool) (net.Conn, error) {
 	vsched.Point("dial:" + addr)
 	n.mu.Lock()
+	n.WithTimeout = withTimeout
 	n.Dials = append(n.Dials, network+"/"+addr)
 	n.nextPort++
 	port := n.nextPort
@@ -373,9 +376,12 @@ func Dial(network, addr string) (net.Conn, error) {
 	if Current == nil {
 		return nil, errors.New("vnet: no network in this execution")
 	}
-	return Current.dial(network, addr)
+	return Current.dial(network, addr, false)
 }
 
 func DialTimeout(network, addr string, _ time.Duration) (net.Conn, error) {
-	return Dial(network, addr)
+	if Current == nil {
+		return nil, errors.New("vnet: no network in this execution")
+	}
+	return Current.dial(network, addr, true)
 }
